@@ -295,6 +295,8 @@ class _Env:
         torch = self.torch
         if r.is_quantized:
             r = r.int_repr()
+        if r.is_complex() and r.is_conj():
+            r = r.resolve_conj()
         if r.dtype == torch.bfloat16:
             r = r.view(torch.int16)
         return r.detach().numpy().tobytes()
@@ -466,6 +468,12 @@ def check_tensor(ctx: Ctx, spec, suite="tensor", light=False, verbose=False):
     name, raw, shape, strides, offset = spec["dtype"], spec["raw"], spec["shape"], spec["strides"], spec["offset"]
     d = E.dt(name)
     t, es = E.mk(name, raw, shape, strides, offset)
+    if spec.get("conj") and name.startswith("complex"):
+        # the same logical values as a LAZILY conjugated view (conj bit set) of a storage holding the conjugates:
+        # what `x.conj()[a:b]`, `.mH` or `.adjoint()` hand to a state dict
+        sc = torch.as_strided(t, [t.untyped_storage().nbytes() // es], [1], 0).conj_physical() if t.untyped_storage().nbytes() else t
+        if t.untyped_storage().nbytes():
+            t = torch.as_strided(sc, shape, strides, offset).conj()
     if list(t.stride()) != list(strides) or t.storage_offset() != offset:
         raise RuntimeError(f"harness: as_strided did not give the requested layout {t.stride()} {strides}")
     n = numel(shape)
@@ -856,6 +864,7 @@ def gen_tensor_spec(ctx: Ctx, dtype=None, maxel=None):
     layout, n_storage, strides, offset = gen_layout(rng, shape)
     raw, pattern = fill_storage(rng, name, es, n_storage)
     return {"kind": "tensor", "dtype": name, "raw": raw, "shape": shape, "strides": strides, "offset": offset,
+            "conj": name.startswith("complex") and rng.random() < 0.4,
             "layout": layout, "pattern": pattern, "async": rng.random() < 0.4,
             "dst": rng.choice(["none", "none", "match", "match", "match_nc", "mismatch_dtype", "mismatch_shape"])}
 
